@@ -13,6 +13,14 @@ CHECKS = {
  ),
 }
 
+CHECKS["C01"] = dict(
+   technique="TLA+ spec LieCalc.tla/LieGroups.tla (exact rational group elements, matrix semantics) model-checked by TLC; every TLC state (operation, operands, exact expected matrix) replayed into the public cyecca.lie singletons",
+   category="model_checking",
+   text="TLC enumerates exact lattices of elements of all 12 singleton groups and 4 direct products (signed integer quaternions incl. 180 deg and both signs / shadow MRPs, Pythagorean angles, rational translations), proves homomorphism, inverse, identity, neutrality and associativity of the textbook semidirect formulas against the matrix semantics on every state, and hands each state to the real code: the matrix of the code's product/inverse/identity/from_Matrix result must equal the exact matrix product of the operands' matrices (two-sided, 1e-9).",
+   design_ref="6/C01",
+   note="Trusted: harness/lie.py embedding (60 lines, textbook parameterisations), CasADi evaluation. Not decided: irrational rotations/translations between lattice points; MRP products near (not at) the 360-degree singularity.",
+)
+
 NOT_YET = {}
 
 ALL = [f"C{i:02d}" for i in range(1, 21)]
